@@ -1456,7 +1456,9 @@ def parse_unittest(test):
     testId = test.id()
     if testId is None:
         return None, None, None
-    testClassName = get_test_class_name(test)
+    # A failing subtest is reported through a ``_SubTest`` object; it
+    # belongs to the class of the test case that ran it.
+    testClassName = get_test_class_name(getattr(test, 'test_case', test))
     testSuite = testClassName
     testName = testId[len(testClassName) + 1:]
     return testSuite, testName, testClassName
